@@ -272,6 +272,11 @@ def run_units(pid, units, tier, seed, level, rule, assumptions, extra_cov=None, 
         if extra:
             ev, extra_info = extra(pid, tier, seed, work, units)
             violations.extend(ev)
+        # a time budget hit means "inconclusive", never a violation - but a unit none of whose shards finished has decided
+        # nothing, and saying so with exit status 0 would be a silent pass
+        for name, pu in per_unit.items():
+            if pu["shards"] and pu["inconclusive"] == pu["shards"]:
+                raise InfraError("no shard of unit %s finished within its time budget (%d s): nothing was decided" % (name, tmo))
         st = skv.merge_stats(stat_files)
         distinct = count_distinct(hash_files)
         cov = dict(evaluations=st["evaluations"], distinct_nontrivial=distinct, rule=rule, samples=st["samples"],
